@@ -44,6 +44,9 @@ def rules_of(fx, rep, pid, rules, rule_id, why, tier='quick'):
     kf = engine.load_known()
     known = {e['key'] for e in kf.get('findings', []) if e['property'] == pid}
     n = 0
+    if isinstance(rules, str):
+        prefix = rules
+        rules = {i.rule for i in sub.insts if i.rule.startswith(prefix)} | {r for r in sub.floors if r.startswith(prefix)}
     for i in sub.insts:
         if i.rule in rules:
             n += 1
@@ -56,4 +59,36 @@ def rules_of(fx, rep, pid, rules, rule_id, why, tier='quick'):
             rep.bad(rule_id, 'floor|' + rule, '-', 'anchor lost in the imported rule %s of %s: expected %d %s' % (rule, pid, fl, what))
     if not n:
         rep.bad(rule_id, 'anchor', '-', 'no instance of the imported rules %s of %s' % (sorted(rules), pid))
+    return n
+
+
+# ---- layering: a property whose behaviour passes through another layer of the library depends on that layer's structural clauses.
+# (importing property) -> [(exporting property, rules (set or id prefix), rule id here, why the dependence is real)]
+LAYERS = {
+    'C05': [('C04', 'R04.', 'R05.8', 'a reply is decoded only through the classification in receive_reply: a second decode path, or a changed attempt order, makes legal '
+             'success / error replies undecodable or misread, whatever the member order')],
+    'C08': [('C01', 'R01.', 'R08.9', 'a call the server cannot frame exactly is answered zero or two times, or the next call is answered with its reply'),
+            ('C02', 'R02.', 'R08.10', 'a reply that is not one document plus one NUL (or stays queued) is not "exactly one reply" for the client'),
+            ('C05', {'R05.1', 'R05.2', 'R05.3'}, 'R08.11', 'the server decides "no reply" from the decoded oneway flag: a flag lost or mixed up in the call envelope makes it answer a oneway call or stay silent on a normal one')],
+    'C09': [('C01', 'R01.', 'R09.7', 'a framing defect on the receive path turns one malformed or fragmented frame into lost or misattributed calls of that and later exchanges'),
+            ('C02', 'R02.', 'R09.8', 'the handler awaits the send of every reply: a flush that loops, or leaves bytes queued, stalls the loop for every connection'),
+            ('C18', {'R18.2'}, 'R09.9', 'a completed receive that the select drops is a call that is never answered on a healthy connection'),
+            ('C17', {'R17.1', 'R17.2', 'R17.3'}, 'R09.10', 'an oversized frame must end in BufferOverflow for that connection only, not in unbounded growth of the server process')],
+    'C10': [('C01', 'R01.', 'R10.6', 'calls pipelined behind a streaming call are in the receive buffer: they are served in order only if framing is exact'),
+            ('C02', 'R02.', 'R10.7', 'every stream item is one framed reply that is flushed when sent: an item left in the write buffer is not delivered while the stream is open'),
+            ('C18', {'R18.2'}, 'R10.8', 'two streams ready in the same poll: the select must hand out one item and keep the other future pending, not drop its output')],
+    'C12': [('C04', 'R04.', 'R12.10', 'generated methods map replies "exactly as the low-level receive classifies them"'),
+            ('C06', {'R06.1', 'R06.2', 'R06.3', 'R06.4', 'R06.5'}, 'R12.11', 'chain forms and streaming methods are built on Chain / ReplyStream: one item per owed reply up to the final one')],
+    'C18': [('C01', {'R01.2', 'R01.3', 'R01.4', 'R01.6', 'R01.7'}, 'R18.6', 'fairness presupposes that a complete call in the socket is recognised as complete by the receive path: '
+             'a read loop that keeps reading (or stops early) leaves a waiting client unserved while others are'),
+            ('C07', {'R07.1', 'R07.2', 'R07.3'}, 'R18.7', 'the select drops the losers\' receive futures on every turn: without cancel-safety a waiting call is corrupted instead of served next')],
+    'C19': [('C07', {'R07.1', 'R07.2', 'R07.3', 'R07.4', 'R07.5'}, 'R19.7', 'a receive abandoned by a timeout / select and restarted later must lose nothing of a large message that arrives in several bursts')],
+}
+
+
+def layer(fx, rep, pid):
+    n = 0
+    for src, rules, rid, why in LAYERS.get(pid, []):
+        rep.rule(rid, 'structural clauses of %s this property depends on (%s): %s' % (src, rules if isinstance(rules, str) else ', '.join(sorted(rules)), why))
+        n += rules_of(fx, rep, src, rules, rid, why)
     return n
